@@ -97,3 +97,14 @@ def _(self: Ref['mqtt.client.factory.MQTTFactory']) -> int:
     ensures(1 <= result and result <= 65535)
     ensures(self.id == result)
     ensures(result == (old(self.id) + 1 if old(self.id) < 65535 else 1))
+
+
+# C17, second half: a fresh identifier must not be carried by an unfinished request of the same factory.
+# makeId never looks at what is in use, so this clause FAILS after the counter wraps (known finding D15):
+# counter-model self.id = k-1 with k a key of a publish window.
+@contract('mqtt.client.factory.MQTTFactory.makeId', name='unique', callsite=False, props=['C17'])
+def _(self: Ref['mqtt.client.factory.MQTTFactory'], addr: Obj):
+    requires(is_int(self.id) and 0 <= self.id <= 65535)
+    requires(isa(self.windowPublish, 'dict') and contains(self.windowPublish, addr) and isa(self.windowPublish[addr], 'dict'))
+    modifies(self.id)
+    ensures(not contains(self.windowPublish[addr], self.id))
